@@ -32,6 +32,17 @@ pub fn run_case(case: &SimCase, mon: Monitors) -> Run {
                     result = Err(format!("harness: action {k} {a:?}: {e}"));
                     break;
                 }
+                if std::env::var("VERIF_TRACE").is_ok() {
+                    eprintln!("== action {k} {a:?}");
+                    for r in &w.steps[checked..] {
+                        let what = match &r.input {
+                            crate::sim::Input::Msg(m) => format!("msg {m} {:?}(view {}) from {:?}", crate::sim::kind_of(&w.pool[*m].msg), crate::sim::view_of(&w.pool[*m].msg), w.pool[*m].from),
+                            x => format!("{x:?}"),
+                        };
+                        eprintln!("   node {} {what} -> {:?}; view {} {:?} -> view {} {:?}; emitted {:?}", r.node, r.out, r.before.view.0, r.before.phase, r.after.view.0, r.after.phase, r.emitted);
+                    }
+                    eprintln!("   committed: {:?}", w.correct().iter().map(|i| (*i, w.committed(*i).len())).collect::<Vec<_>>());
+                }
                 if let Err(e) = check_monitors(&w, &mon, checked) {
                     result = Err(format!("after action {k} {a:?}: {e}"));
                     break;
@@ -66,6 +77,12 @@ fn record(st: &mut Stats, info: &RunInfo) {
     }
     if info.reproposals_accepted > 0 {
         st.class("reproposal_accepted");
+    }
+    if info.lost > 0 {
+        st.class("messages_lost_in_flight");
+    }
+    if info.served_blocks > 0 {
+        st.class("block_served_by_byzantine_peer");
     }
     if info.min_committed >= 2 {
         st.class("all_nodes_committed_2+");
